@@ -348,6 +348,69 @@ def serveGET (cfg : KSConfig) (path : Str) (hdr : Option Str) (nowNs : Int) : Se
   if cleanPath path != path then .redirect (cleanPath path)
   else .handled (handleGET mac cfg (path.drop 1) (getAPIToken hdr) nowNs)
 
+/-! ## keepstore: the remote-proxy exit of `handleGET` (proxy_remote.go `remoteProxy.Get`)
+
+Taken for locators with `+R` and without `+A`. It never calls `GetBlock` on a local volume: it
+either answers with an error or forwards the request to a remote cluster's Keep services with the
+caller's token salted for that cluster. (With `X-Keep-Signature: local…` the fetched block is also
+*written* to a local volume and a fresh local signature is returned; that path is not modelled.) -/
+
+/-- sdk/go/auth `SaltToken(token, remote)`, as far as the proxy distinguishes outcomes -/
+inductive SaltResult where
+  | ok (salted : Str)
+  | obsolete            -- ErrObsoleteToken → 400
+  | otherError          -- ErrTokenFormat / ErrSalted → 500
+deriving Repr, DecidableEq
+
+/-- `reObsoleteToken = ^[0-9a-z]{41,}$` -/
+def isObsoleteToken (t : Str) : Bool :=
+  decide (41 ≤ t.length) && t.all (fun c => isDigit c || ('a' ≤ c && c ≤ 'z'))
+
+def saltToken (token remote : Str) : SaltResult :=
+  match splitOn '/' token with
+  | v2 :: uuid :: secret :: _ =>
+    if v2 == ['v', '2'] then
+      if secret.length ≠ 40 then
+        .ok (['v', '2', '/'] ++ uuid ++ '/' :: hexOfDigest (mac secret remote))
+      else if remote.isPrefixOf uuid then .ok token
+      else .otherError
+    else if isObsoleteToken token then .obsolete else .otherError
+  | _ => if isObsoleteToken token then .obsolete else .otherError
+
+inductive RemoteOutcome where
+  | status (code : Nat)                              -- answered locally, no request sent
+  | forward (remote : Str) (locator : Str) (token : Str)   -- remoteClient.Get(locator) with that token
+deriving Repr, DecidableEq
+
+/-- the loop over the `+`-separated parts: `acc` = parts kept so far (reversed), `sel` = the
+remote chosen so far with the salted token -/
+def remoteParts (configured : Str → Bool) (token : Str) :
+    List Str → List Str → Option (Str × Str) → RemoteOutcome
+  | [], acc, none => .status 400                                   -- "bad request": no usable +R hint
+  | [], acc, some (r, t) => .forward r (joinPlus acc.reverse) t
+  | part :: rest, acc, sel =>
+    if part.head? == some 'A' then remoteParts configured token rest acc sel      -- drop local hint
+    else if decide (7 < part.length) && part.head? == some 'R' && part[6]? == some '-' then
+      let remoteID := (part.drop 1).take 5
+      if !configured remoteID then .status 400                     -- "remote cluster not configured"
+      else match saltToken mac token remoteID with
+        | .obsolete => .status 400
+        | .otherError => .status 500
+        | .ok salted => remoteParts configured token rest (('A' :: part.drop 7) :: acc) (some (remoteID, salted))
+    else remoteParts configured token rest (part :: acc) sel
+where
+  joinPlus : List Str → Str
+    | [] => []
+    | [s] => s
+    | s :: r => s ++ '+' :: joinPlus r
+
+/-- `remoteProxy.Get` up to the request it sends -/
+def remoteProxyGet (configured : Str → Bool) (loc token : Str) : RemoteOutcome :=
+  if token.isEmpty then .status 401
+  else match splitOn '+' loc with
+    | [] => .status 400
+    | h :: parts => remoteParts mac configured token parts [h] none
+
 /-- decimal (`%d`) of a size -/
 def natDec (n : Nat) : Str := Nat.toDigits 10 n
 
